@@ -50,11 +50,13 @@ def sim_scens(ctx, cfg, n, depth=41, kinds_cycle=True):
         seen.add(k)
         i = len(seen)
         kinds = [REQKINDS[i % len(REQKINDS)], REQKINDS[(i // 2 + 3) % len(REQKINDS)]] if kinds_cycle else None
+        if kinds and i % 3 == 0:
+            kinds[0] = "writecontrol"   # c1 is the model's write client
         out.append(scen_from_steps(s["steps"], prod, "tlc-simulate:" + cfg, kinds))
     return out
 
 
-GOALS = ["NotG1", "NotG2", "NotG3", "NotG4", "NotG5", "NotG6", "NotG7", "NotG8", "NotG9", "NotG10", "NotG11", "NotG12"]
+GOALS = ["NotG1", "NotG2", "NotG3", "NotG4", "NotG5", "NotG6", "NotG7", "NotG8", "NotG9", "NotG10", "NotG11", "NotG12", "NotG13", "NotG14"]
 
 
 def witness_scens(ctx, producers=("simple", "erroring"), repeat=6):
@@ -65,12 +67,14 @@ def witness_scens(ctx, producers=("simple", "erroring"), repeat=6):
         for g in GOALS:
             cfgtxt = ("SPECIFICATION Spec\nCONSTANTS Stoppers = {\"s1\", \"s2\"}\n Clients = {\"c1\", \"c2\"}\n ProducerKind = \"%s\"\n MaxBlocks = 2\n"
                       " MaxRuns = 2\n StartMayFail = {}\n RPCLayer = TRUE\n StaleFlag = FALSE\n DoubleSend = FALSE\n SharedWaitGroup = FALSE\n"
-                      " Replayable = TRUE\nINVARIANTS %s\nCHECK_DEADLOCK FALSE\n" % (prod, g))
+                      " Replayable = TRUE\n WriteClients = {\"c1\"}\n WritingOutlivesRun = FALSE\n MaxPolls = 1\n PollOnce = FALSE\nINVARIANTS %s\nCHECK_DEADLOCK FALSE\n" % (prod, g))
             r = vlib.run_tlc(ctx, "Lifecycle", "Blank.cfg", workers=8, extra_files={"Blank.cfg": cfgtxt}, timeout=600)
             if r.violated:
                 steps = [obs_from_state(st) for st in r.error_trace if "act" in st]
-                sc = scen_from_steps(steps, prod, "witness:%s:%s" % (g, prod))
-                out.extend([sc] * repeat)
+                # client c1 is the model's write client: every second copy asks for WriteControl(START), the others for triggers
+                for k in range(repeat):
+                    kinds = ["writecontrol", "trigger"] if (k % 2 == 0 or g == "NotG13") else None
+                    out.append(scen_from_steps(steps, prod, "witness:%s:%s" % (g, prod), kinds))
     return out
 
 
@@ -97,7 +101,7 @@ def run_driver(ctx, scens, tag="t", udp=False):
         if events and events[-1]["ev"] != "End":
             events.append({"ev": "Crash", "msg": msg[0] if msg else "?"})
             events.append({"ev": "End", "hangs": [], "finalstop": True, "finalstoperr": "", "st": "Inactive", "flag": False, "probe": "skipped",
-                           "census": {"core": 0, "producer": 0}, "returns": {}, "ndone": 0, "crashed": True})
+                           "census": {"core": 0, "producer": 0}, "returns": {}, "ndone": 0, "crashed": True, "writing": False})
         skip = begins[-1]
     else:
         raise vlib.MachineryError("lifecycle driver keeps crashing:\n" + out[-2000:])
